@@ -223,8 +223,9 @@ def option_job(interp, c, case):
     T = interp.load("bioscrape.types")
     M, init = _mk_model(interp, c, with_delay, with_rule)
     h = c.real("h", lo=0, lo_strict=True)
-    tp = np.array([i * h for i in range(npts)], dtype=object)
-    syms = dict(h=h)
+    t_start = c.real("t_start", lo=0)               # the requested grid need not begin at the system's initial time (0)
+    tp = np.array([t_start + i * h for i in range(npts)], dtype=object)
+    syms = dict(h=h, t_start=t_start)
     if volume == "num":
         vol = c.real("V", lo=0, lo_strict=True)
         syms["V"] = vol
@@ -274,6 +275,8 @@ def option_job(interp, c, case):
     if want != "odeint":
         sim = r0[1]
         rep(s_and(sim.py_get_dt() == h), "the interface's dt is the grid step when the simulator starts", "interface dt " + sig_base)
+        rep(sim.py_get_initial_time() == 0, "the stochastic clock starts at the interface's initial time (0), wherever the requested grid begins: what happens "
+            "before the first requested time is simulated, not skipped", "simulation clock moved to the first time point " + sig_base)
         if r0[2] is not None:
             q = r0[2]
             rep(s_and(q.num_reactions == 1, q.num_cols == n, q.dt == h), "delay queue sized for the reactions and the grid", "queue setup")
